@@ -81,4 +81,5 @@ let () =
     match split_on ' ' l with
     | ["D"; opn; tmo; flags; lens; sys; wt] -> run_d opn tmo flags lens sys wt
     | ["E"; steps] -> run_e steps
+    | "R" :: _ -> print_endline "R ok"      (* part 3 has no model: the real-kernel run feeds the property oracle only *)
     | _ -> print_endline "BADCASE")
